@@ -110,13 +110,15 @@ theorem selLoop_inv (sc : Script) (f : Nat) : ∀ {s : St}, Inv none s → s.bac
     unfold selLoop
     have hq : Inv none (selQuery s) := by unfold selQuery; exact h.congr rfl rfl rfl rfl rfl rfl rfl
     have hqb : (selQuery s).backend = .select := hb
-    simp only []
     split
-    · exact ih (idle_inv sc hq) (by rw [idle_backend]; exact hqb)
-    · have h1 := selDispatch_inv sc (s := emit .disp (selQuery s))
-        (inv_emit_of hq (by simp) (by simp) (by simp) trivial) hqb
+    · exact act_inv _ (inv_emit_of h (by simp) (by simp) (by simp) trivial)
+    · simp only []
       split
-      · exact h1.1
-      · exact ih h1.1 h1.2
+      · exact ih (idle_inv sc hq) (by rw [idle_backend]; exact hqb)
+      · have h1 := selDispatch_inv sc (s := emit .disp (selQuery s))
+          (inv_emit_of hq (by simp) (by simp) (by simp) trivial) hqb
+        split
+        · exact h1.1
+        · exact ih h1.1 h1.2
 
 end MgProof.C13
